@@ -156,6 +156,31 @@ def run(F, R, tier):
     r2.floor(5)
 
     # ------------------------------------------------------------------ R3/R4 DIDUrl gate and join
+    # the accessors give back what the setters stored, minus exactly the one delimiter the stored form carries: path() = the stored path,
+    # query() / fragment() = stored form with its first character ('?' / '#') removed — nothing more (a query may itself begin with '?')
+    for acc, delim in (("path", None), ("query", "?"), ("fragment", "#")):
+        afn = REL + "::" + acc
+        if not r2.anchor(F.hir(afn), afn):
+            continue
+        taba = SR.Table(F, afn, rule=r2)
+        FLD = SR.fld(acc)
+        oka = bool(taba.paths)
+        for q in taba.paths:
+            rt = sym.term(q.ret)
+            if delim is None:
+                good = SR.pure(rt, FLD, conv=re.compile(r"(as_deref|as_ref|as_str|deref|borrow)$"))
+            elif SR.variant(q, FLD) == "None":
+                good = rt == ("ctor", "None")
+            else:
+                pay = ("payload", FLD, "Some", 0)
+                one = ("call", "str::strip_prefix", (pay, ("lit", delim)))
+                good = SR.variant(q, FLD) == "Some" and (rt == one or rt == ("ctor", "Some", ("payload", one, "Some", 0))
+                                                         or rt == ("ctor", "Some", ("index", pay, ("struct", "core::ops::range::RangeFrom", ("start", ("lit", 1))))))
+            if not r2.require(good, (afn, "accessor"), "RelativeDIDUrl::%s does not return the stored %s%s: %s" % (acc, acc, "" if delim is None else " without exactly its leading '%s'" % delim, sym.fmt(rt)[:120])):
+                oka = False
+        r2.site("RelativeDIDUrl::%s returns the stored component%s: %s" % (acc, "" if delim is None else " minus one leading '%s'" % delim, oka))
+    r2.floor(8)
+
     r3 = R.rule("C10-R3", "T1+T2", "DIDUrl{did,url} is built only in new/from_base_did_url/map/try_map; from_base_did_url validates all three segments and strips them before CoreDID::try_from; join requires a leading delimiter")
     allowed = {DU + "::new", DU + "::from_base_did_url", DU + "::map", DU + "::try_map"}
     for (p, bi, s) in F.constructions(DU):
